@@ -277,6 +277,11 @@ def execute(cfg: dict, *, stop_at_first=True, trace=False) -> RunResult:
     def violate(inv, symptom, detail, op_kind, site=""):
         res.violations.append(Violation(PROP, inv, spec.name, symptom, detail, opi[0], op_kind, site, tags))
 
+    def ok():
+        # a laziness verdict (L0) does not stop the run: the remaining invariants are still checked, so that a
+        # class with a *known* L0 finding (POP) keeps being compared with the in-memory fit
+        return not any(v.invariant != "L0" for v in res.violations)
+
     def step(name):
         opi[0] += 1
         sim.op = f"{opi[0]}:{name}"
@@ -317,7 +322,7 @@ def execute(cfg: dict, *, stop_at_first=True, trace=False) -> RunResult:
             elif sout.kind() != rout.kind():
                 violate("E1", f"outcome:{sout.kind()}!={rout.kind()}",
                         f"fit on dask-backed data -> {sout.kind()} {sout.exc_msg[:200]!r}; on the same data in memory -> {rout.kind()} {rout.exc_msg[:120]!r}", "fit")
-            live = sout.ok and rout.ok and not res.violations
+            live = sout.ok and rout.ok and ok()
             frag = _fragile(ref) if live else None
             kappa = _kappa(ref) if live else 1.0
             kappa_tol = 1e3 * np.finfo(float).eps * kappa ** 9      # accuracy of the randomised solver
@@ -352,12 +357,12 @@ def execute(cfg: dict, *, stop_at_first=True, trace=False) -> RunResult:
 
             if live and strict_lazy:
                 laziness(sub, fit_calls, "fit")
-            if live and not res.violations:
+            if live and ok():
                 input_still_lazy(sub, "after fit")
 
             # ---- rotator ---------------------------------------------------------------------------------
             srot = None
-            if live and not res.violations and cfg["rot_params"]:
+            if live and ok() and cfg["rot_params"]:
                 step("rot_fit")
                 srot = spec.rot_cls()(**copy.deepcopy(cfg["rot_params"]))
                 mark = sim.mark()
@@ -379,7 +384,7 @@ def execute(cfg: dict, *, stop_at_first=True, trace=False) -> RunResult:
                     if strict_lazy and not cfg["rot_params"]["compute"]:
                         laziness(srot, rcalls, "rotator.fit")
                         probes.add("deferred rotator on deferred model")
-                    if not res.violations:
+                    if ok():
                         input_still_lazy(srot, "after rotator.fit")
                     frag = frag or _fragile_after(rrot)
 
@@ -388,7 +393,7 @@ def execute(cfg: dict, *, stop_at_first=True, trace=False) -> RunResult:
 
             # ---- lazy handles obtained now, computed later (deferred-handle timing) -------------------
             handles = []
-            if live and not res.violations and deferred:
+            if live and ok() and deferred:
                 for q, when in zip(_signfree(spec, cfg["handles"]), cfg["handle_timing"]):
                     step("handle")
                     h = oracle.capture(models.run_query, spec, sub, _cq(q), env)
@@ -401,7 +406,7 @@ def execute(cfg: dict, *, stop_at_first=True, trace=False) -> RunResult:
 
             def settle(when):
                 for q, w, h, want in handles:
-                    if w != when or res.violations:
+                    if w != when or not ok():
                         continue
                     step("handle_compute")
                     got = oracle.capture(lambda: oracle.materialise(h.value)) if h.ok else h
@@ -429,7 +434,7 @@ def execute(cfg: dict, *, stop_at_first=True, trace=False) -> RunResult:
             settle("now")
 
             # ---- S1: the same lazy results under other schedules ----------------------------------------
-            if live and not res.violations and cfg.get("s1") and deferred:
+            if live and ok() and cfg.get("s1") and deferred:
                 step("s1")
                 objs = {k: v for k, v in target_s.data.items() if isinstance(v, xr.DataArray) and v.chunks is not None
                         and not k.startswith("input_data")}
@@ -454,7 +459,7 @@ def execute(cfg: dict, *, stop_at_first=True, trace=False) -> RunResult:
             settle("after_rot")
 
             # ---- F: a permanent task failure inside compute(), then a clean compute() ----------------
-            if live and not res.violations and deferred and cfg.get("fault_compute"):
+            if live and ok() and deferred and cfg.get("fault_compute"):
                 step("fault_compute")
                 fc = cfg["fault_compute"]
                 sim.cfg.permanent_at = int(fc["at"])
@@ -470,7 +475,7 @@ def execute(cfg: dict, *, stop_at_first=True, trace=False) -> RunResult:
                     violate("F", f"outcome:{o.kind()}", f"compute() under an injected {fc['exc']} raised {o.kind()}: {o.exc_msg[:200]}", "fault_compute")
 
             # ---- compute() -----------------------------------------------------------------------------------
-            if live and not res.violations and deferred:
+            if live and ok() and deferred:
                 step("compute")
                 o = oracle.capture(target_s.compute)
                 with core.reference_context():
@@ -483,13 +488,13 @@ def execute(cfg: dict, *, stop_at_first=True, trace=False) -> RunResult:
                         if isinstance(arr, xr.DataArray) and arr.chunks is not None and not key.startswith("input_data"):
                             violate("L1", "still-lazy", f"after compute() the stored result {key!r} is still dask-backed", "compute")
                             break
-                    if not res.violations:
+                    if ok():
                         input_still_lazy(target_s, "after compute()")
                         input_still_lazy(sub, "after compute()")
             settle("after_compute")
 
             # ---- E1: every observable equals the in-memory fit --------------------------------------------
-            if live and not res.violations:
+            if live and ok():
                 step("observe")
                 nm = int((cfg["rot_params"] if tspec_rot else params)["n_modes"])
                 if spec.name == "POP":
@@ -503,20 +508,20 @@ def execute(cfg: dict, *, stop_at_first=True, trace=False) -> RunResult:
                     if len(qs) > 8:
                         qs = [qs[i] for i in sorted(qrng.sample(range(len(qs)), 8))]
                     for q in qs:
-                        if res.violations:
+                        if not ok():
                             break
                         got = oracle.capture(lambda: oracle.materialise(models.run_query(spec, target_s, _cq(q), env)))
                         with core.reference_context():
                             want = oracle.capture(lambda: oracle.materialise(models.run_query(spec, target_r, q, env)))
                         judge(got, want, q, "E1", "observe")
-                if not res.violations:
+                if ok():
                     input_still_lazy(sub, "after the queries")
 
-            if not res.violations:
+            if ok():
                 bad_inputs = env.check_untouched()
                 if bad_inputs:
                     violate("L2", "input-modified", "user input modified (chunks/values): " + "; ".join(bad_inputs[:3]), "end")
-            if sim.monitor_failures and not res.violations:
+            if sim.monitor_failures and ok():
                 violate("PURITY", "task", sim.monitor_failures[0], "end")
 
     sim.stats.merge_into(counts)
